@@ -458,6 +458,34 @@ Proof.
   - split; [discriminate | intros (_ & _ & _ & b' & Hb & _); discriminate].
 Qed.
 
+(* the whole proof list: exactly the FIRST proof of the requested type is verified; proofs
+   after it (of any type) and proofs of other types before it play no role *)
+Theorem top_list_ok_iff : forall B (check : B -> res unit) (ps : list (bool * vp_input B)),
+  verify_proof_list check ps = Ok tt <->
+  exists pre i post,
+    ps = pre ++ (true, i) :: post /\ Forall (fun p => fst p = false) pre /\
+    vp_claim i = true /\ vp_binding i = true /\
+    exists b, vp_typed i = Some b /\ check b = Ok tt.
+Proof.
+  intros B check ps. unfold verify_proof_list. rewrite top_ok_iff.
+  induction ps as [|[t i] ps IH].
+  - simpl. split.
+    + intros (A & _); discriminate.
+    + intros (pre & i & post & E & _). destruct pre; discriminate.
+  - unfold select_proof in *. simpl. destruct t; simpl.
+    + split.
+      * intros (_ & Hc & Hb & Ht). exists [], i, ps. repeat split; auto.
+      * intros (pre & i' & post & E & Hpre & Hc & Hb & Ht). destruct pre as [|[t0 i0] pre].
+        -- simpl in E. inversion E; subst. repeat split; auto.
+        -- simpl in E. inversion E; subst. inversion Hpre as [|? ? Hf _]. simpl in Hf. discriminate.
+    + rewrite IH. split.
+      * intros (pre & i' & post & E & Hpre & R). exists ((false, i) :: pre), i', post.
+        split; [simpl; rewrite E; reflexivity|]. split; [constructor; auto|exact R].
+      * intros (pre & i' & post & E & Hpre & R). destruct pre as [|[t0 i0] pre].
+        -- simpl in E. inversion E.
+        -- simpl in E. inversion E; subst. inversion Hpre; subst. exists pre, i', post. auto.
+Qed.
+
 (* getIden3StateInfo2023FromDIDDocument: the FIRST Iden3StateInfo2023 entry decides, whatever
    precedes or follows it *)
 Theorem state_info_first : forall pre p post,
